@@ -15,7 +15,10 @@ TRUSTED_BASE = [
     "Coq 8.16.1 kernel incl. vm_compute (no native_compute); coqchk re-check in the thorough tier",
     "hand-written Gallina model of vt100 (coq/*.v) - tied to /repo by the differential correspondence check on every run",
     "model of vte 0.14.1 (coq/Vte.v), core::str::from_utf8 (coq/Utf8.v), unicode-width table (coq/WidthData.v, regenerated and compared every run), itoa, Vec/VecDeque operations, overflow-checked u16 arithmetic",
-    "extraction (ExtrOcamlBasic directives only), OCaml 4.13.1, ocaml/driver.ml, harness/src/bin/drive.rs printers, the cfg(vt100_verif) dump hook in /repo",
+    "extraction (ExtrOcamlBasic directives only: bool, option, unit, list, prod, sumbool, sumor, andb, orb), OCaml 4.13.1, ocaml/driver.ml, harness/src/bin/drive.rs printers, the cfg(vt100_verif) dump hook in /repo (commit 2fc300b): a field it does not print is not compared by the state correspondence",
+    "axioms: none - every pinned theorem prints 'Closed under the global context'; Section-local Variables/Hypotheses (RowPaint.v, CellInv.v, ModeLast.v) are discharged at End of their Sections; no Axiom/Parameter/Admitted anywhere (grep on every run)",
+    "C03 cost clause: the unit charges of the abstract work measure (Vec::insert/remove O(len), Row::new O(cols)) are read off the Rust code by inspection; CPU time is measured by the oracle, not proved",
+    "io::Write is exercised on a twin Parser<()> fed the same history (the only instantiation that implements it)",
 ]
 
 PROPS = {
@@ -25,7 +28,7 @@ PROPS = {
         projection="contents_formatted / state_formatted bytes (Emit.contents_formatted_t, state_formatted_t) and the screen state they are computed from",
     ),
     "C02": dict(
-        level_text='PARTIAL: proved (Props/C02.v) — the statement as an executable round trip (DiffRound.diff_round_ok); C02_refuted: the unrestricted statement is FALSE of the model, witness = open finding D10 (replayed on the crate, KNOWN_FINDINGS.txt); C02_total/C02_bytes: for all reachable pairs both diff emitters succeed and every token re-parses to exactly the intended actions; C02_equal_obs(_round): a diff against an observationally equal screen is empty and leaves the receiver alone; C02_example: non-vacuity on an unrelated pair with wide characters and a wrapped row. The semantic statement outside the D10 class is not yet a theorem; it is decided by correspondence of the diff bytes plus the oracle (prefix pairs, independent pairs, chains).',
+        level_text='PARTIAL, with the unrestricted statement REFUTED: the statement is the executable byte-level round trip DiffRound.diff_round_ok (fresh parser, bytes of state_formatted(P), bytes of state_diff(S,P), obs compared). C02_refuted: false of the model for reachable 2x2 screens (open finding D10, replayed on the crate, KNOWN_FINDINGS.txt). PROVED (Props/C02sem.v; DiffPaint, DiffGrid, DiffMain, DiffRoundU): C02sem_W — for ALL reachable P, S of equal size at scrollback offset 0 in which every soft-wrapped row, and the row after it, has the same cells in P and S (class W; contains every pair without soft-wrapped rows, C02sem_U), diff_round_ok P S holds, with no callback event and a ground parser (C02sem_W_strong); C02sem_chain_W / C02sem_chain_U — a single receiver fed diff(S1,S0), diff(S2,S1), ... stays equal to the latest snapshot; C02_total/C02_bytes — for all reachable pairs the diff emitters succeed and every token re-parses exactly; C02_equal_obs. Wide and combining characters, colours, hidden cursor, pending-wrap cursors, alternate screen are inside the class. OUTSIDE the theorem: pairs in which the diff changes a soft-wrapped row or the row after one (the wrap-carry and flag-repair paths, where D10 lives) — decided by the differential correspondence of the diff bytes plus the oracle (prefix pairs, independent pairs, chains), D10 suppressed only for its exact shape.',
         families=[("emit", 1500, 60000), ("wrapdiff", 1500, 40000), ("cursorfix", 500, 10000), ("modes", 300, 4000)],
         projection="contents_diff / state_diff bytes (Emit.contents_diff_t, state_diff_t) against snapshots",
     ),
@@ -90,7 +93,7 @@ PROPS = {
         projection="contents(), rows(start,width), contents_between() text",
     ),
     "C15": dict(
-        level_text='PARTIAL (two of three clauses proved): C15_full_reachable_obs — the row-wise protocol (rows_formatted(0,cols) row by row, continuing unpositioned after a wrapped row, then cursor_state_formatted, attributes_formatted, input_mode_formatted) on a blank receiver of the same size reproduces obs S for every reachable screen at offset 0; C15_window / C15_window_row — for every aligned proper sub-window, drawing row i at (i,start) on rows blank from start on reproduces the cells inside the window; rows_formatted/rows_diff never panic for ALL windows (C03), tokens re-parse (C01tok), self-diff empty (C19). The rows_diff clause (window diff on a receiver showing prev) is not yet a theorem; it is carried by correspondence of the row bytes plus the protocol oracle.',
+        level_text='FULL for blank/aligned receivers at offset 0, PARTIAL for wrapped rows in the diff clause: C15_full_reachable_obs — the row-wise protocol (rows_formatted(0,cols) row by row, continuing unpositioned after a wrapped row, then cursor_state_formatted, attributes_formatted, input_mode_formatted) on a blank receiver of the same size reproduces obs S for every reachable screen at offset 0; C15_window / C15_window_row — for every aligned proper sub-window, drawing row i at (i,start) on rows blank from start on reproduces the cells inside the window; C15diff_window / C15diff_window_row / C15diff_full (Props/C15diff.v) — drawing row i of rows_diff(prev,start,width) at (i,start) on a receiver whose rows show prev turns the cells inside the window into the current ones (cells before start untouched), for screens without soft-wrapped rows and windows left-aligned to wide-character boundaries in both screens; rows_formatted/rows_diff never panic for ALL windows (C03), tokens re-parse (C01tok), self-diff empty (C19). Outside the theorems: rows_diff on wrapped rows (shares the wrap-carry paths of C02), carried by correspondence of the row bytes plus the protocol oracle.',
         families=[("emit", 1500, 50000), ("wrapdiff", 800, 20000), ("cursorfix", 500, 10000)],
         projection="rows_formatted / rows_diff / cursor_state_formatted / attributes_formatted bytes",
     ),
